@@ -14,7 +14,7 @@ ASSUME = [
 
 def main():
     c = Check("C14")
-    c.prove(gen=["boxconsts", "stmts"])
+    c.prove(gen=["boxconsts", "stmts"], modules=["TSSVerif.Props.C14", "TSSVerif.Props.C14Order"])
     c.correspond("boxsched")
     return c.finish(
         rule="controlled scheduler over the real msg.Box: 7 scenarios (1-3 receiving threads with 1-2 messages each, 1-2 sending threads, same and different topics); stateless depth-first enumeration of ALL "
